@@ -6,15 +6,15 @@ PROPERTY = 'C12'
 LEVEL = 'exploration'
 RULE = ('generated clusters whose processes change state continuously (automatic distribution, user start / stop / '
         'restart requests, kills, duplicates, backoff / exit behaviours) while instances start staggered, crash and '
-        'are lost (one family: while processes that ignore SIGTERM are STOPPING there); lossless transport (only the guards of the code drop events); oracle at quiescence: per process, '
+        'are lost (one family: while processes that ignore SIGTERM are STOPPING there; one family: the Supervisor configuration changes at run time - numprocs up / down, programs disabled / enabled, groups removed and added again - so that processes appear and disappear); lossless transport (only the guards of the code drop events); oracle at quiescence: per process, '
         'identical running set and running state on every member of a group, equal to the truth of the Supervisors '
         'it sees RUNNING; non-trivial = quiescent run with at least one process truly running and two members '
         'compared; distinct = distinct (topology, strategies, distributions, actions) tuples')
 ASSUMPTIONS = ['quiescence = all proxy FIFOs empty, no deferred call, no peer in CHECKING / CHECKED / FAILED']
 FLOORS = {'quick': {'groups_evaluated': 150, 'process_views_compared': 3000, 'running_views_compared': 500,
-                    'pairs_compared': 1500},
+                    'pairs_compared': 1500, 'numprocs_requests_served': 80, 'groups_removed': 25},
           'thorough': {'groups_evaluated': 4000, 'process_views_compared': 80000, 'running_views_compared': 12000,
-                       'pairs_compared': 40000}}
+                       'pairs_compared': 40000, 'numprocs_requests_served': 1200, 'groups_removed': 400}}
 COUNT = {'quick': 1600, 'thorough': 12000}
 BUDGET_S = {'quick': 55, 'thorough': 540}
 
@@ -43,15 +43,30 @@ STOPPING_COUNT = {'quick': 200, 'thorough': 3000}
 SLOW_KNOBS = dict(KNOBS, handshake_skew=[0.0, 0.3, 1.0, 2.0, 3.0])
 
 
+# and a family where the Supervisor configuration changes at run time (numprocs up / down, programs disabled / enabled,
+# groups removed and added again) while processes are started and stopped: processes appear and disappear
+DYN_KNOBS = {'n_min': 2, 'n_max': 4,
+             'apps': {'n_apps': (1, 3), 'n_progs': (1, 3), 'seq_max': 2, 'startsecs': (0, 3), 'max_numprocs': 3,
+                      'per_instance_diff': 0.1, 'managed_p': 0.7},
+             'behaviours': ['normal'] * 6 + ['slow_stop', 'crash_early', 'exit_unexpected'],
+             'actions': ['update_numprocs'] * 4 + ['enable', 'disable', 'remove_group', 'add_group', 'add_group',
+                                                   'start_application', 'stop_application', 'restart_application',
+                                                   'start_process', 'start_process', 'stop_process', 'burst',
+                                                   'burst', 'restart'],
+             'early_p': 0.1, 'n_actions': [2, 3, 4, 6, 8, 12], 'fence': 'false'}
+DYN_COUNT = {'quick': 240, 'thorough': 3000}
+
+
 def plan(tier, seed):
     return [{'seed': seed * 1000003 + 900000 + i, 'family': 'slow-handshake'} for i in range(COUNT[tier] // 8)] + \
         [{'seed': seed * 1000003 + i} for i in range(COUNT[tier])] + \
-        [{'seed': seed * 1000003 + 800000 + i, 'family': 'lost-while-stopping'} for i in range(STOPPING_COUNT[tier])]
+        [{'seed': seed * 1000003 + 800000 + i, 'family': 'lost-while-stopping'} for i in range(STOPPING_COUNT[tier])] + \
+        [{'seed': seed * 1000003 + 600000 + i, 'family': 'dynconf'} for i in range(DYN_COUNT[tier])]
 
 
 def run_case(case):
     mon = AgreementMonitor()
-    run = Run(case, {'lost-while-stopping': STOPPING_KNOBS, 'slow-handshake': SLOW_KNOBS}.get(case.get('family'), KNOBS),
+    run = Run(case, {'lost-while-stopping': STOPPING_KNOBS, 'slow-handshake': SLOW_KNOBS, 'dynconf': DYN_KNOBS}.get(case.get('family'), KNOBS),
               [mon])
     violations = run.execute()
     nontrivial = mon.counters.get('running_views_compared', 0) > 0 and mon.counters.get('pairs_compared', 0) > 0
